@@ -855,7 +855,7 @@ def rule_context_chain_graph(ck, ix):
     from . import shape as _shg
     fills = [a_ for a_ in walk_local(g.node) if isinstance(a_, ast.Assign) and any(dotted(t_) == "self._graph" for t_ in a_.targets)]
     lazy = bool(fills) and all(_shg.holds_at(a_, g.node, lambda at: norm(at) == "self._graph is None", True) for a_ in fills)      # built only while unset
-    ck.check(lazy and any(isinstance(f_, ast.For) and norm(f_.iter) == "self" for f_ in walk_local(g.node)), "G-PROV", "ContextChain.graph|built-from-all-rules", g.loc(),
+    ck.check(lazy and any(isinstance(f_, ast.For) and _shg.rnorm(f_.iter, g.node) in ("self", "self.keys()", "iter(self)", "list(self)", "tuple(self)", "list(self.keys())", "tuple(self.keys())") for f_ in walk_local(g.node)), "G-PROV", "ContextChain.graph|built-from-all-rules", g.loc(),
              "graph built lazily from every (src, dst) rule in the chain", "ContextChain.graph is not built from the chain's rules")
     adds = [c for c in walk_local(g.node) if isinstance(c, ast.Call) and call_name(c) == "add"]
     fors = [f for f in walk_local(g.node) if isinstance(f, ast.For)]
